@@ -12,7 +12,7 @@ use crate::common::*;
 use crate::wire::{self, Req, Val};
 use crate::Ctx;
 use ark_bls12_381::{Bls12_381, Fr, G1Affine};
-use ark_ec::{pairing::Pairing, CurveGroup};
+use ark_ec::{pairing::Pairing, AffineRepr, CurveGroup};
 use ark_ff::{Field, One, UniformRand, Zero};
 use ark_poly::{
     multivariate::{SparsePolynomial, SparseTerm, Term},
@@ -1329,6 +1329,47 @@ pub fn run_prop(ctx: &mut Ctx, prop: &str) {
             }
             ctx.flush_model("C06-pst13");
         }
+        "C08" => {
+            let n = ctx.n(24, 300);
+            for i in 0..n {
+                commit_map_case(ctx, i);
+            }
+            ctx.flush_model("C08-pst13");
+        }
+        "C09" => {
+            let (mnv, md) = if ctx.thorough { (8, 5) } else { (4, 3) };
+            for nv in 1..=mnv {
+                for d in 1..=md {
+                    if nv > 6 && d > 4 {
+                        continue;
+                    }
+                    real_setup_case(ctx, nv, d, if ctx.thorough { 400 } else { 12 });
+                }
+                ctx.flush_model(&format!("C09-pst13-{}", nv));
+            }
+        }
+        "C10" => {
+            let n = ctx.n(12, 150);
+            for i in 0..n {
+                relation_case(ctx, i);
+            }
+            ctx.flush_model("C10-pst13");
+        }
+        "C17" => {
+            let n = ctx.n(33, 330);
+            for i in 0..n {
+                domain_case(ctx, i);
+            }
+            domain_setup_cases(ctx);
+            ctx.flush_model("C17-pst13");
+        }
+        "C19" => {
+            let n = ctx.n(16, 200);
+            for i in 0..n {
+                size_case(ctx, i);
+            }
+            ctx.flush_model("C19-pst13");
+        }
         "C07" => {
             let n = ctx.n(24, 300);
             for i in 0..n {
@@ -1687,6 +1728,10 @@ fn shape_case(ctx: &mut Ctx, i: usize) {
             if claim == "true" && name == "honest" && !accepted(&o) {
                 ctx.rep.expect_fail(&cid, "pst13/honest-rejected", "check rejected the honest proof", txt.clone());
             }
+            // a witness list that has not one element per key variable is refused, never answered
+            if w.len() != nv && matches!(o, ImplOutcome::Ok(_)) {
+                ctx.rep.expect_fail(&cid, &format!("pst13/wrong-witness-count-answered/check/{}", kind), &format!("check answered {:?} for a proof with {} witnesses under a key of {} variables", o, w.len(), nv), txt.clone());
+            }
             ctx.ses.ask(
                 &format!("{}/check", cid),
                 env.trap
@@ -1714,6 +1759,9 @@ fn shape_case(ctx: &mut Ctx, i: usize) {
             }
             if claim == "true" && name == "honest" && !accepted(&bo) {
                 ctx.rep.expect_fail(&cid, "pst13/honest-rejected", "batch_check rejected the honest proof", txt.clone());
+            }
+            if w.len() != nv && matches!(bo, ImplOutcome::Ok(_)) {
+                ctx.rep.expect_fail(&cid, &format!("pst13/wrong-witness-count-answered/batch_check/{}", kind), &format!("batch_check answered {:?} for a proof with {} witnesses under a key of {} variables", bo, w.len(), nv), txt.clone());
             }
             ctx.ses.ask(
                 &format!("{}/batch", cid),
@@ -2165,6 +2213,882 @@ fn lc_case(ctx: &mut Ctx, i: usize) {
         }
         ctx.rep.case(&format!("pst13 lc check {} nv={} groups={} acc={}", v.name, nv, groups.len(), acc), Some(format!("pst13-lc-check/{}/{}", vkind, i)));
     }
+}
+
+// ------------------------------------------------------------------------------------------------
+// C08: the commitment is the key-defined linear map of the term list
+// ------------------------------------------------------------------------------------------------
+
+/// `Σ coeff · powers_of_g[term]` by plain group arithmetic on the PUBLISHED key elements (no
+/// trapdoor); `None` when a term is not in the key
+fn key_sum(ck: &CK, terms: &[(Fr, SparseTerm)]) -> Option<<Bls12_381 as Pairing>::G1> {
+    let mut acc = <Bls12_381 as Pairing>::G1::zero();
+    for (c, t) in terms {
+        acc += ck.powers_of_g.get(t)?.mul(*c);
+    }
+    Some(acc)
+}
+
+fn commit_plain(ck: &CK, p: &MvPoly) -> Result<Result<G1Affine, ark_poly_commit::Error>, String> {
+    let lp = LabeledPolynomial::new("p".to_string(), p.clone(), None, None);
+    guarded(|| PC::commit(ck, [&lp], None).map(|(c, _)| c[0].commitment().comm.0))
+}
+
+fn commit_map_case(ctx: &mut Ctx, i: usize) {
+    let id = format!("C08/pst13/{}", i);
+    if !ctx.selected(&id) {
+        return;
+    }
+    let mut rng = rng_for(ctx.seed, "C08/pst13", i as u64);
+    let nv = range(&mut rng, 1, if ctx.thorough { 4 } else { 3 });
+    let d = range(&mut rng, 1, 4);
+    let s = if coin(&mut rng) { d } else { range(&mut rng, 1, d) };
+    let trap = Trap::random(&mut rng, nv, d);
+    let pp = trap.params();
+    let (ck, _vk): (CK, VK) = match guarded(|| PC::trim(&pp, s, 0, None)) {
+        Ok(Ok(x)) => x,
+        _ => return,
+    };
+    let dp = if coin(&mut rng) { s } else { range(&mut rng, 0, s) };
+    let (p, kp) = gen_poly(&mut rng, nv, dp);
+    let dq = if coin(&mut rng) { s } else { range(&mut rng, 0, s) };
+    let (q, kq) = gen_poly(&mut rng, nv, dq);
+    let pick = |rng: &mut Rng| match range(rng, 0, 4) {
+        0 => Fr::zero(),
+        1 => Fr::one(),
+        2 => -Fr::one(),
+        _ => Fr::rand(rng),
+    };
+    let a = pick(&mut rng);
+    let b = pick(&mut rng);
+    let mut comb = <MvPoly as Zero>::zero();
+    comb += (a, &p);
+    comb += (b, &q);
+    // the same polynomial as `p` given as a raw term vector: coefficients split in two, a zero term
+    // added, the order shuffled (the struct fields are public; `commit` reads `terms()` as they are)
+    let mut raw_terms: Vec<(Fr, SparseTerm)> = vec![];
+    for (c, t) in p.terms() {
+        let c1 = Fr::rand(&mut rng);
+        raw_terms.push((c1, t.clone()));
+        raw_terms.push((*c - c1, t.clone()));
+    }
+    let ats = all_terms(nv, s);
+    raw_terms.push((Fr::zero(), ats[range(&mut rng, 0, ats.len() - 1)].clone()));
+    for k in (1..raw_terms.len()).rev() {
+        let j = range(&mut rng, 0, k);
+        raw_terms.swap(k, j);
+    }
+    let raw = MvPoly { num_vars: nv, terms: raw_terms };
+    let zero = MvPoly::from_coefficients_vec(nv, vec![]);
+    let head = format!(
+        "{}# s={} p={} q={} a={} b={} raw(p)={} case={} seed={}\n",
+        trap.desc(), s, poly_val(&p), poly_val(&q), wire::fe(&a), wire::fe(&b), poly_val(&raw), id, ctx.seed
+    );
+    let mut got: Vec<Option<G1Affine>> = vec![];
+    for (name, poly) in [("p", &p), ("q", &q), ("a*p+b*q", &comb), ("zero", &zero), ("raw(p)", &raw)] {
+        let out = commit_plain(&ck, poly);
+        let req = trap
+            .key_args(Req::new("c15.commit"), s)
+            .arg("p", poly_val(poly))
+            .arg("hb", wire::opt_nat(None))
+            .arg("rng", wire::boolean(false))
+            .arg("draws", wire::fes::<Fr>(&[]));
+        match &out {
+            Ok(Ok(c)) => {
+                ctx.ses.ask(&format!("{}/{}", id, name), req, ImplOutcome::Ok(vec![("c".into(), Expect::G1(*c)), ("used".into(), Expect::Nat(0))]));
+                match key_sum(&ck, poly.terms()) {
+                    Some(ks) if ks.into_affine() == *c => {}
+                    _ => ctx.rep.expect_fail(&id, "pst13/commitment-not-key-sum", &format!("commit({}) differs from the sum of the published key elements weighted by the coefficients", name), head.clone()),
+                }
+                got.push(Some(*c));
+            }
+            Ok(Err(e)) => {
+                ctx.ses.ask(&format!("{}/{}", id, name), req, ImplOutcome::Refuse(err_kind(e)));
+                ctx.rep.expect_fail(&id, "pst13/commit-refused", &format!("commit({}) refused a polynomial within the supported degree: {}", name, err_kind(e)), head.clone());
+                got.push(None);
+            }
+            Err(m) => {
+                ctx.ses.ask(&format!("{}/{}", id, name), req, ImplOutcome::Refuse(m.clone()));
+                ctx.rep.expect_fail(&id, "pst13/commit-refused", &format!("commit({}) aborted on a polynomial within the supported degree: {}", name, m), head.clone());
+                got.push(None);
+            }
+        }
+    }
+    if let (Some(cp), Some(cq), Some(cc), Some(cz), Some(cr)) = (got[0], got[1], got[2], got[3], got[4]) {
+        if (cp.mul(a) + cq.mul(b)).into_affine() != cc {
+            ctx.rep.expect_fail(&id, "pst13/commit-not-additive", "commit(a·p + b·q) != a·commit(p) + b·commit(q)", head.clone());
+        }
+        if !cz.is_zero() {
+            ctx.rep.expect_fail(&id, "pst13/commit-zero-not-identity", "the zero polynomial does not commit to the identity", head.clone());
+        }
+        if cr != cp {
+            ctx.rep.expect_fail(&id, "pst13/commit-depends-on-representation", "a reordered term vector with split coefficients and a zero term commits differently", head.clone());
+        }
+    }
+    ctx.rep.count(&format!("pst13/c08-{}-{}", kp, kq));
+    ctx.rep.case(&format!("pst13 commit map nv={} D={} s={} p={} q={}", nv, d, s, kp, kq), Some(format!("pst13-c08/{}/{}/{}/{}", nv, s, kp, kq)));
+}
+
+// ------------------------------------------------------------------------------------------------
+// C09: the library's own setup / trim, checked through pairings; sub-keys interoperate
+// ------------------------------------------------------------------------------------------------
+
+fn real_setup_case(ctx: &mut Ctx, nv: usize, d: usize, pair_budget: usize) {
+    let id = format!("C09/pst13-setup/{}-{}", nv, d);
+    if !ctx.selected(&id) {
+        return;
+    }
+    let mut rng = rng_for(ctx.seed, "C09/pst13-setup", (nv * 16 + d) as u64);
+    let mut replay = rng.clone();
+    let replay_txt = format!("# MarlinPST13::setup(max_degree={}, num_vars=Some({}), rng_for(seed={}, \"C09/pst13-setup\", {}))\n", d, nv, ctx.seed, nv * 16 + d);
+    let pp: PP = match guarded(|| PC::setup(d, Some(nv), &mut rng)) {
+        Ok(Ok(pp)) => pp,
+        other => {
+            ctx.rep.expect_fail(&id, "pst13/setup-refused", &format!("setup refused an in-domain request: {:?}", other.err()), replay_txt);
+            return;
+        }
+    };
+    let mut problems: Vec<String> = vec![];
+    let one = SparseTerm::new(vec![]);
+    let g = match pp.powers_of_g.get(&one) {
+        Some(g) => *g,
+        None => {
+            ctx.rep.expect_fail(&id, "pst13/setup-key-set", "the constant monomial is missing from powers_of_g", replay_txt);
+            return;
+        }
+    };
+    if g.is_zero() || pp.gamma_g.is_zero() || pp.h.is_zero() {
+        problems.push("an identity generator".into());
+    }
+    if g == pp.gamma_g {
+        problems.push("g == gamma_g".into());
+    }
+    let want: BTreeSet<SparseTerm> = all_terms(nv, d).into_iter().collect();
+    let have: BTreeSet<SparseTerm> = pp.powers_of_g.keys().cloned().collect();
+    if have != want || pp.powers_of_g.len() != choose(nv + d, d) {
+        problems.push(format!("powers_of_g is not indexed by exactly the C({}+{},{}) monomials of degree <= {}", nv, d, d, d));
+    }
+    if pp.beta_h.len() != nv || pp.powers_of_gamma_g.len() != nv || pp.powers_of_gamma_g.iter().any(|r| r.len() != d + 1) {
+        problems.push("beta_h / powers_of_gamma_g have the wrong shape".into());
+    }
+    use ark_poly_commit::PCUniversalParams;
+    if pp.max_degree() != d || pp.num_vars != nv {
+        problems.push("max_degree()/num_vars misreport".into());
+    }
+    // every published power is the stated power of ONE trapdoor, through pairings only:
+    // e(G[m·x_i], h) == e(G[m], beta_i h) for every monomial m of degree < d (sampled to the budget)
+    let lower: Vec<&SparseTerm> = pp.powers_of_g.keys().filter(|t| t.degree() + 1 <= d).collect();
+    let total_pairs = lower.len() * nv;
+    let step = std::cmp::max(1, total_pairs / std::cmp::max(1, pair_budget));
+    let mut k = (nv * 5 + d) % step;
+    let mut done = 0;
+    while k < total_pairs && problems.is_empty() {
+        let m = lower[k / nv];
+        let i = k % nv;
+        let mut v = m.to_vec();
+        v.push((i, 1));
+        let mx = SparseTerm::new(v);
+        match (pp.powers_of_g.get(&mx), pp.powers_of_g.get(m)) {
+            (Some(a), Some(b)) => {
+                if Bls12_381::pairing(*a, pp.h) != Bls12_381::pairing(*b, pp.beta_h[i]) {
+                    problems.push(format!("e(G[{:?}], h) != e(G[{:?}], beta_{} h)", mx, m, i));
+                }
+            }
+            _ => problems.push(format!("monomial {:?}·x_{} missing", m, i)),
+        }
+        done += 1;
+        k += step;
+    }
+    // gamma rows: e(row_i[0], h) == e(gamma_g, beta_i h), e(row_i[j+1], h) == e(row_i[j], beta_i h)
+    for (i, row) in pp.powers_of_gamma_g.iter().enumerate() {
+        let mut prev = pp.gamma_g;
+        for (j, el) in row.iter().enumerate() {
+            if i < pp.beta_h.len() && Bls12_381::pairing(*el, pp.h) != Bls12_381::pairing(prev, pp.beta_h[i]) {
+                problems.push(format!("powers_of_gamma_g[{}][{}] is not beta_{} times its predecessor", i, j, i));
+                break;
+            }
+            prev = *el;
+        }
+    }
+    ctx.rep.count(&format!("pst13/c09-pairings-{}", if done == total_pairs { "all" } else { "sample" }));
+    // the model's setup from the replayed draws: the same key set in the same (BTreeMap) order, the same
+    // monomial values, gamma rows and beta_h
+    let betas: Vec<Fr> = (0..nv).map(|_| Fr::rand(&mut replay)).collect();
+    if pp.beta_h.len() == nv && betas.iter().zip(pp.beta_h.iter()).all(|(b, bh)| pp.h.mul(*b).into_affine() == *bh) {
+        let vals: Vec<Fr> = pp.powers_of_g.keys().map(|t| t.evaluate(&betas)).collect();
+        if pp.powers_of_g.values().zip(vals.iter()).any(|(el, v)| g.mul(*v).into_affine() != *el) {
+            problems.push("an element of powers_of_g is not g times its monomial at the trapdoor".into());
+        }
+        let grows: Vec<Vec<Fr>> = (0..nv)
+            .map(|i| {
+                let mut cur = Fr::one();
+                (0..=d).map(|_| { cur *= betas[i]; cur }).collect()
+            })
+            .collect();
+        ctx.ses.ask(
+            &id,
+            Req::new("c15.setup_terms").arg("nv", wire::nat(nv)).arg("d", wire::nat(d)).arg("betas", wire::fes(&betas)),
+            ImplOutcome::Ok(vec![
+                ("count".into(), Expect::Nat(pp.powers_of_g.len())),
+                ("keys".into(), Expect::Raw(terms_val(pp.powers_of_g.keys()))),
+                ("vals".into(), Expect::Fes(vals)),
+                ("grows".into(), Expect::Raw(wire::fess(&grows))),
+                ("bh".into(), Expect::Fes(betas.clone())),
+            ]),
+        );
+    } else {
+        problems.push("beta_h is not the first num_vars field draws times h".into());
+    }
+    if !problems.is_empty() {
+        ctx.rep.expect_fail(&id, "pst13/setup-key-wrong", &problems.join("; "), format!("{}# {}\n", replay_txt, problems.join("\n# ")));
+    }
+    ctx.rep.case(&format!("pst13 real setup nv={} D={} terms={}", nv, d, pp.powers_of_g.len()), Some(format!("pst13-c09-setup/{}/{}", nv, d)));
+    // trim: faithful sub-keys for every supported degree, refusal above, boundary commit, interoperation
+    for s in 0..=d + 1 {
+        let tid = format!("{}/trim-{}", id, s);
+        let out = guarded(|| PC::trim(&pp, s, 0, None));
+        let req = Req::new("c15.trim")
+            .arg("nv", wire::nat(nv))
+            .arg("d", wire::nat(d))
+            .arg("s", wire::nat(s))
+            .arg("betas", wire::fes(&betas))
+            .arg("g", wire::fe(&Fr::one()))
+            .arg("gamma", wire::fe(&Fr::one()))
+            .arg("h", wire::fe(&Fr::one()));
+        match out {
+            Ok(Ok((ck, vk))) => {
+                let mut tp: Vec<String> = vec![];
+                if s > d {
+                    tp.push("trim accepted supported_degree > max_degree".into());
+                }
+                let want_s: BTreeSet<SparseTerm> = want.iter().filter(|t| t.degree() <= s).cloned().collect();
+                if ck.powers_of_g.keys().cloned().collect::<BTreeSet<_>>() != want_s {
+                    tp.push(format!("trimmed key set is not the monomials of degree <= {}", s));
+                }
+                if ck.powers_of_g.iter().any(|(t, el)| pp.powers_of_g.get(t) != Some(el)) {
+                    tp.push("a trimmed element differs from the universal one".into());
+                }
+                if ck.powers_of_gamma_g.len() != nv || ck.powers_of_gamma_g.iter().zip(pp.powers_of_gamma_g.iter()).any(|(a, b)| a.len() != s + 1 || a[..] != b[..=std::cmp::min(s, b.len() - 1)]) {
+                    tp.push("trimmed gamma rows are not the first s+1 entries".into());
+                }
+                use ark_poly_commit::{PCCommitterKey, PCVerifierKey};
+                if vk.g != g || vk.gamma_g != pp.gamma_g || vk.h != pp.h || vk.beta_h != pp.beta_h || ck.gamma_g != pp.gamma_g
+                    || ck.num_vars != nv || vk.num_vars != nv || ck.supported_degree() != s || vk.supported_degree() != s
+                    || ck.max_degree() != d || vk.max_degree() != d
+                {
+                    tp.push("key fields / degree reports differ from the parameters".into());
+                }
+                // boundary: degree == supported commits, supported + 1 is refused; the sub-keys interoperate
+                let full = {
+                    let mut t = vec![0usize; nv];
+                    for _ in 0..s { t[range(&mut rng, 0, nv - 1)] += 1; }
+                    MvPoly::from_coefficients_vec(nv, vec![(rand_nonzero(&mut rng), SparseTerm::new(t.into_iter().enumerate().collect())), (Fr::rand(&mut rng), SparseTerm::new(vec![]))])
+                };
+                let over = MvPoly::from_coefficients_vec(nv, vec![(rand_nonzero(&mut rng), SparseTerm::new(vec![(nv - 1, s + 1)]))]);
+                let lp = LabeledPolynomial::new("p".to_string(), full.clone(), None, None);
+                match guarded(|| PC::commit(&ck, [&lp], None)) {
+                    Ok(Ok((c, st))) => {
+                        let z: Vec<Fr> = (0..nv).map(|_| Fr::rand(&mut rng)).collect();
+                        let mut sp = fresh();
+                        let vsp = sp.clone();
+                        match guarded(|| PC::open(&ck, [&lp], c.iter(), &z, &mut sp, st.iter(), None)) {
+                            Ok(Ok(pr)) => {
+                                let (o, _) = check_impl(&vk, &c, &z, &[full.evaluate(&z)], &pr, &vsp);
+                                if !accepted(&o) {
+                                    tp.push("keys of one trim do not interoperate: honest proof rejected".into());
+                                }
+                                let (o2, _) = check_impl(&vk, &c, &z, &[full.evaluate(&z) + Fr::one()], &pr, &vsp);
+                                if accepted(&o2) {
+                                    tp.push("false value accepted under the library-made keys".into());
+                                }
+                            }
+                            _ => tp.push("open refused a polynomial of degree == supported".into()),
+                        }
+                    }
+                    _ => tp.push("commit refused a polynomial of degree == supported".into()),
+                }
+                let lo = LabeledPolynomial::new("p".to_string(), over, None, None);
+                if let Ok(Ok(_)) = guarded(|| PC::commit(&ck, [&lo], None)) {
+                    tp.push("commit accepted a polynomial of degree supported + 1".into());
+                }
+                if !tp.is_empty() {
+                    ctx.rep.expect_fail(&tid, "pst13/trim-wrong", &tp.join("; "), format!("{}# trim(pp, {}, 0, None)\n# {}\n", replay_txt, s, tp.join("\n# ")));
+                }
+                let tvals: Vec<Fr> = ck.powers_of_g.keys().map(|t| t.evaluate(&betas)).collect();
+                let trows: Vec<Vec<Fr>> = (0..nv)
+                    .map(|i| {
+                        let mut cur = Fr::one();
+                        (0..=s).map(|_| { cur *= betas[i]; cur }).collect()
+                    })
+                    .collect();
+                ctx.ses.ask(
+                    &tid,
+                    req,
+                    ImplOutcome::Ok(vec![
+                        ("keys".into(), Expect::Raw(terms_val(ck.powers_of_g.keys()))),
+                        ("vals".into(), Expect::Fes(tvals)),
+                        ("grows".into(), Expect::Raw(wire::fess(&trows))),
+                        ("bh".into(), Expect::Fes(betas.clone())),
+                    ]),
+                );
+            }
+            Ok(Err(e)) => {
+                if s <= d {
+                    ctx.rep.expect_fail(&tid, "pst13/trim-refused", &format!("trim refused supported_degree {} <= {}: {}", s, d, e), replay_txt.clone());
+                }
+                ctx.ses.ask(&tid, req, ImplOutcome::Refuse(err_kind(&e)));
+            }
+            Err(a) => {
+                ctx.rep.expect_fail(&tid, "pst13/trim-aborted", &format!("trim aborted: {}", a), replay_txt.clone());
+                ctx.ses.ask(&tid, req, ImplOutcome::Refuse(a));
+            }
+        }
+        ctx.rep.count(if s <= d { "pst13/c09-trim-in-domain" } else { "pst13/c09-trim-too-large" });
+        ctx.rep.case(&format!("pst13 real trim nv={} D={} s={}", nv, d, s), Some(format!("pst13-c09-trim/{}/{}/{}", nv, d, s)));
+    }
+}
+
+// ------------------------------------------------------------------------------------------------
+// C10: `check` (and the one-point `batch_check`) decide exactly the published pairing relation
+// ------------------------------------------------------------------------------------------------
+
+/// the published relation in scalar form, written from the paper's equation:
+/// `(Σ ξⱼ(Cⱼ − vⱼ·g) − rv·γ)·h == Σᵢ wᵢ·(βᵢh − zᵢ·h)`; `None`: the transcript has not the shape the
+/// relation is stated for (more witnesses than key elements / coordinates)
+fn reference_relation(g: Fr, gamma: Fr, h: Fr, bh: &[Fr], cs: &[Fr], z: &[Fr], vs: &[Fr], w: &[Fr], rv: &Option<Fr>, xis: &[Fr]) -> Option<bool> {
+    if w.len() > bh.len() || w.len() > z.len() {
+        return None;
+    }
+    let n = std::cmp::min(cs.len(), vs.len());
+    if xis.len() < n {
+        return None;
+    }
+    let mut inner = Fr::zero();
+    for j in 0..n {
+        inner += xis[j] * (cs[j] - vs[j] * g);
+    }
+    inner -= rv.unwrap_or(Fr::zero()) * gamma;
+    let mut rhs = Fr::zero();
+    for i in 0..w.len() {
+        rhs += w[i] * (bh[i] - z[i] * h);
+    }
+    Some(inner * h == rhs)
+}
+
+fn relation_case(ctx: &mut Ctx, i: usize) {
+    let id = format!("C10/pst13/{}", i);
+    if !ctx.selected(&id) {
+        return;
+    }
+    let mut rng = rng_for(ctx.seed, "C10/pst13", i as u64);
+    let nv = range(&mut rng, 1, 3);
+    let d = range(&mut rng, 1, 3);
+    let s = range(&mut rng, 1, d);
+    let npoly = range(&mut rng, 1, 3);
+    let env = match make_env(ctx, &id, &mut rng, nv, d, s, npoly, true) {
+        Some(e) => e,
+        None => return,
+    };
+    let z: Vec<Fr> = (0..nv).map(|_| Fr::rand(&mut rng)).collect();
+    let mut sponge = fresh();
+    sponge.absorb_seed(0xC10 + i as u64);
+    let vsponge = sponge.clone();
+    let proof: Proof<Bls12_381> = match guarded(|| PC::open(&env.ck, env.polys.iter(), env.comms.iter(), &z, &mut sponge, env.states.iter(), None)) {
+        Ok(Ok(p)) => p,
+        _ => {
+            ctx.rep.expect_fail(&id, "pst13/open-refused", "open refused a committed polynomial", env.head.clone());
+            return;
+        }
+    };
+    let xis = sponge.challenges();
+    let plain = env.plain();
+    let blinds = env.blinds();
+    if xis.len() != npoly || proof.w.len() != nv {
+        return;
+    }
+    let mut ws: Vec<Fr> = vec![];
+    for v in 0..nv {
+        let mut acc = Fr::zero();
+        for j in 0..npoly {
+            match (quotient_at(&plain[j], &z, &env.trap.betas, v), quotient_at(&blinds[j], &z, &env.trap.betas, v)) {
+                (Some(a), Some(b)) => acc += xis[j] * (env.trap.g * a + env.trap.gamma * b),
+                _ => return,
+            }
+        }
+        ws.push(acc);
+    }
+    if g1s(&ws) != proof.w {
+        ctx.rep.count("pst13/witness-differs-from-sequential-quotient");
+        return;
+    }
+    let values: Vec<Fr> = plain.iter().map(|p| p.evaluate(&z)).collect();
+    let t = &env.trap;
+    let bh: Vec<Fr> = t.betas.iter().map(|b| t.h * b).collect();
+    // one transcript: (key scalars, commitments, point, values, witnesses, random_v, sponge)
+    #[derive(Clone)]
+    struct Tr {
+        g: Fr,
+        gamma: Fr,
+        h: Fr,
+        bh: Vec<Fr>,
+        cs: Vec<Fr>,
+        z: Vec<Fr>,
+        vs: Vec<Fr>,
+        w: Vec<Fr>,
+        rv: Option<Fr>,
+        sponge_tweak: Option<u64>,
+    }
+    let honest = Tr { g: t.g, gamma: t.gamma, h: t.h, bh: bh.clone(), cs: env.c_scalars.clone(), z: z.clone(), vs: values.clone(), w: ws.clone(), rv: proof.random_v, sponge_tweak: None };
+    let mut trs: Vec<(String, Tr)> = vec![("honest".into(), honest.clone())];
+    for j in 0..npoly {
+        let mut a = honest.clone();
+        a.cs[j] = Fr::rand(&mut rng);
+        trs.push((format!("commitment-{}", j), a));
+        let mut b = honest.clone();
+        b.vs[j] = Fr::rand(&mut rng);
+        trs.push((format!("value-{}", j), b));
+    }
+    for v in 0..nv {
+        let mut a = honest.clone();
+        a.z[v] = Fr::rand(&mut rng);
+        trs.push((format!("point-{}", v), a));
+        let mut b = honest.clone();
+        b.w[v] = Fr::rand(&mut rng);
+        trs.push((format!("witness-{}", v), b));
+        let mut c = honest.clone();
+        c.bh[v] = Fr::rand(&mut rng);
+        trs.push((format!("key-beta_h-{}", v), c));
+    }
+    {
+        let mut a = honest.clone();
+        a.rv = match a.rv {
+            Some(_) => if coin(&mut rng) { Some(Fr::rand(&mut rng)) } else { None },
+            None => Some(rand_nonzero(&mut rng)),
+        };
+        trs.push(("random_v".into(), a));
+        let mut b = honest.clone();
+        b.g = rand_nonzero(&mut rng);
+        trs.push(("key-g".into(), b));
+        let mut c = honest.clone();
+        c.gamma = rand_nonzero(&mut rng);
+        trs.push(("key-gamma_g".into(), c));
+        let mut e = honest.clone();
+        e.h = rand_nonzero(&mut rng);
+        trs.push(("key-h".into(), e));
+        let mut f = honest.clone();
+        f.sponge_tweak = Some(range(&mut rng, 1, 1000) as u64);
+        trs.push(("challenge".into(), f));
+    }
+    for (name, tr) in trs {
+        let cid = format!("{}/{}", id, name);
+        let kind: String = name.split('-').take_while(|x| x.parse::<usize>().is_err()).collect::<Vec<_>>().join("-");
+        let mut vk2 = env.vk.clone();
+        vk2.g = g1(tr.g);
+        vk2.gamma_g = g1(tr.gamma);
+        vk2.h = g2(tr.h);
+        vk2.prepared_h = vk2.h.into();
+        vk2.beta_h = g2s(&tr.bh);
+        vk2.prepared_beta_h = vk2.beta_h.iter().map(|x| (*x).into()).collect();
+        let comms2: Vec<LabeledCommitment<Comm>> = (0..npoly).map(|j| lcomm(env.comms[j].label(), g1(tr.cs[j]))).collect();
+        let pr = Proof::<Bls12_381> { w: g1s(&tr.w), random_v: tr.rv };
+        let mut sp = vsponge.clone();
+        if let Some(x) = tr.sponge_tweak {
+            sp.absorb_seed(x);
+        }
+        let sp0 = sp.clone();
+        let out = guarded(|| PC::check(&vk2, comms2.iter(), &tr.z, tr.vs.clone(), &pr, &mut sp, None));
+        let vx = sp.challenges();
+        let o = outcome_of(out);
+        let reference = reference_relation(tr.g, tr.gamma, tr.h, &tr.bh, &tr.cs, &tr.z, &tr.vs, &tr.w, &tr.rv, &vx);
+        let txt = format!(
+            "{}# component replaced: {}\n# verifier key scalars g={} gamma_g={} h={} beta_h={}\n# commitments {} point {} values {} witnesses {} random_v {} challenges {}\n# reference relation: {:?}\n",
+            env.head, name, wire::fe(&tr.g), wire::fe(&tr.gamma), wire::fe(&tr.h), wire::fes(&tr.bh), wire::fes(&tr.cs), wire::fes(&tr.z), wire::fes(&tr.vs), wire::fes(&tr.w), wire::opt_fe(&tr.rv), wire::fes(&vx), reference
+        );
+        match (&o, reference) {
+            (ImplOutcome::Ok(_), Some(r)) if accepted(&o) == r => {}
+            _ => ctx.rep.expect_fail(&cid, &format!("pst13/check-differs-from-relation/{}", kind), &format!("check returned {:?}, the published relation evaluates to {:?}", o, reference), txt.clone()),
+        }
+        if name == "honest" && reference != Some(true) {
+            ctx.rep.expect_fail(&cid, "pst13/honest-violates-relation", "the library's honest proof does not satisfy the published relation", txt.clone());
+        }
+        let vkreq = |op: &str, xs: &[Fr]| -> Req {
+            Req::new(op)
+                .arg("vg", wire::fe(&tr.g))
+                .arg("vgamma", wire::fe(&tr.gamma))
+                .arg("vh", wire::fe(&tr.h))
+                .arg("vbh", wire::fes(&tr.bh))
+                .arg("nv", wire::nat(nv))
+                .arg("cs", wire::fes(&tr.cs))
+                .arg("z", wire::fes(&tr.z))
+                .arg("vs", wire::fes(&tr.vs))
+                .arg("w", wire::fes(&tr.w))
+                .arg("rv", wire::opt_fe(&tr.rv))
+                .arg("xis", wire::fes(xs))
+        };
+        ctx.ses.ask(&format!("{}/check", cid), vkreq("pst13.check_vk", &vx), o.clone());
+        // the same transcript through batch_check (one point label)
+        let mut qs: QSet = QSet::new();
+        let mut evals: EvalMap = EvalMap::new();
+        for j in 0..npoly {
+            qs.insert((env.comms[j].label().clone(), ("z".to_string(), tr.z.clone())));
+            evals.insert((env.comms[j].label().clone(), tr.z.clone()), tr.vs[j]);
+        }
+        let rs = crate::kzg::replay_u128(&rng, 1);
+        let mut bsp = sp0.clone();
+        let bout = guarded(|| PC::batch_check(&vk2, comms2.iter(), &qs, &evals, &vec![pr.clone()], &mut bsp, &mut rng));
+        let bx = bsp.challenges();
+        let bo = outcome_of(bout);
+        let bref = reference_relation(tr.g, tr.gamma, tr.h, &tr.bh, &tr.cs, &tr.z, &tr.vs, &tr.w, &tr.rv, &bx);
+        match (&bo, bref) {
+            (ImplOutcome::Ok(_), Some(r)) if accepted(&bo) == r => {}
+            _ => ctx.rep.expect_fail(&cid, &format!("pst13/batch-check-differs-from-relation/{}", kind), &format!("batch_check returned {:?}, the published relation evaluates to {:?}", bo, bref), txt.clone()),
+        }
+        ctx.ses.ask(&format!("{}/batch", cid), vkreq("pst13.batch_check_vk", &bx).arg("rs", wire::fes(&rs)), bo.clone());
+        ctx.rep.count(&format!("pst13/c10-{}-{}", kind, if reference == Some(true) { "holds" } else { "fails" }));
+        ctx.rep.case(&format!("pst13 relation nv={} polys={} component={} relation={:?}", nv, npoly, name, reference), Some(format!("pst13-c10/{}/{}/{}", nv, npoly, kind)));
+    }
+}
+
+// ------------------------------------------------------------------------------------------------
+// C17: out-of-domain requests are refused (by the code and by the model)
+// ------------------------------------------------------------------------------------------------
+
+fn domain_case(ctx: &mut Ctx, i: usize) {
+    let id = format!("C17/pst13/{}", i);
+    if !ctx.selected(&id) {
+        return;
+    }
+    let mut rng = rng_for(ctx.seed, "C17/pst13", i as u64);
+    let nv = range(&mut rng, 1, 3);
+    let d = range(&mut rng, 2, 4);
+    let s = range(&mut rng, 1, d - 1);
+    let npoly = range(&mut rng, 1, 2);
+    let env = match make_env(ctx, &id, &mut rng, nv, d, s, npoly, true) {
+        Some(e) => e,
+        None => return,
+    };
+    let t = &env.trap;
+    let plain = env.plain();
+    let blinds = env.blinds();
+    let any_hiding = blinds.iter().any(|b| !b.is_zero());
+    let kinds = ["commit-degree", "commit-extra-variable", "commit-hiding-zero", "commit-hiding-large", "commit-no-rng", "open-degree", "open-short-point", "check-short-point", "batch-unknown-label", "batch-missing-eval", "batch-open-unknown-label"];
+    let kind = kinds[i % kinds.len()];
+    let refused = |ctx: &mut Ctx, what: &str, ok: bool, txt: String| {
+        if ok {
+            ctx.rep.expect_fail(&id, &format!("pst13/out-of-domain-answered/{}", kind), what, txt);
+        }
+    };
+    match kind {
+        "commit-degree" | "commit-extra-variable" | "commit-hiding-zero" | "commit-hiding-large" | "commit-no-rng" => {
+            let (p, hb, with_rng): (MvPoly, Option<usize>, bool) = match kind {
+                "commit-degree" => {
+                    // total degree s + 1 through a mixed monomial when there is more than one variable
+                    let term = if nv > 1 { vec![(0, s), (nv - 1, 1)] } else { vec![(0, s + 1)] };
+                    (MvPoly::from_coefficients_vec(nv, vec![(rand_nonzero(&mut rng), SparseTerm::new(term)), (Fr::rand(&mut rng), SparseTerm::new(vec![]))]), None, true)
+                }
+                "commit-extra-variable" => (MvPoly::from_coefficients_vec(nv + 1, vec![(rand_nonzero(&mut rng), SparseTerm::new(vec![(nv, 1)])), (Fr::rand(&mut rng), SparseTerm::new(vec![]))]), None, true),
+                "commit-hiding-zero" => (gen_poly(&mut rng, nv, s).0, Some(0), true),
+                "commit-hiding-large" => (gen_poly(&mut rng, nv, s).0, Some(s + 1 + range(&mut rng, 0, 2)), true),
+                _ => (gen_poly(&mut rng, nv, s).0, Some(range(&mut rng, 1, s)), false),
+            };
+            let lp = LabeledPolynomial::new("p".to_string(), p.clone(), None, hb);
+            let out = if with_rng { guarded(|| PC::commit(&env.ck, [&lp], Some(&mut rng))) } else { guarded(|| PC::commit(&env.ck, [&lp], None)) };
+            let draws: Vec<Fr> = (0..1 + nv * (hb.unwrap_or(0) + 1)).map(|_| Fr::rand(&mut rng)).collect();
+            let req = t
+                .key_args(Req::new("c15.commit"), s)
+                .arg("p", poly_val(&p))
+                .arg("hb", wire::opt_nat(hb))
+                .arg("rng", wire::boolean(with_rng))
+                .arg("draws", wire::fes(&draws));
+            let txt = format!("{}# commit p={} hb={:?} rng={}\n", env.head, poly_val(&p), hb, with_rng);
+            match out {
+                Ok(Ok(_)) => refused(ctx, "commit answered an out-of-domain request", true, txt),
+                Ok(Err(e)) => ctx.ses.ask(&id, req, ImplOutcome::Refuse(err_kind(&e))),
+                Err(a) => ctx.ses.ask(&id, req, ImplOutcome::Refuse(a)),
+            }
+        }
+        "open-degree" => {
+            // a polynomial above the supported degree handed to `open` (never committed under this key)
+            let term = if nv > 1 { vec![(0, s), (nv - 1, 1)] } else { vec![(0, s + 1)] };
+            let p = MvPoly::from_coefficients_vec(nv, vec![(rand_nonzero(&mut rng), SparseTerm::new(term))]);
+            let lp = LabeledPolynomial::new("p".to_string(), p.clone(), None, None);
+            let z: Vec<Fr> = (0..nv).map(|_| Fr::rand(&mut rng)).collect();
+            let st = vec![<Rand as ark_poly_commit::PCCommitmentState>::empty()];
+            let mut sp = fresh();
+            let out = guarded(|| PC::open(&env.ck, [&lp], env.comms.iter().take(1), &z, &mut sp, st.iter(), None));
+            let req = t
+                .key_args(Req::new("c15.open"), s)
+                .arg("nvp", wire::nat(nv))
+                .arg("nvr", wire::nat(0))
+                .arg("ps", polys_val(&[p.clone()]))
+                .arg("z", wire::fes(&z))
+                .arg("rs", polys_val(&[<MvPoly as Zero>::zero()]))
+                .arg("xis", wire::fes(&[Fr::rand(&mut rng)]));
+            let txt = format!("{}# open p={} at {}\n", env.head, poly_val(&p), wire::fes(&z));
+            match out {
+                Ok(Ok(_)) => refused(ctx, "open answered for a polynomial above the supported degree", true, txt),
+                Ok(Err(e)) => ctx.ses.ask(&id, req, ImplOutcome::Refuse(err_kind(&e))),
+                Err(a) => ctx.ses.ask(&id, req, ImplOutcome::Refuse(a)),
+            }
+        }
+        "open-short-point" | "check-short-point" => {
+            // a point with fewer coordinates than the key has variables
+            let zfull: Vec<Fr> = (0..nv).map(|_| Fr::rand(&mut rng)).collect();
+            let short: Vec<Fr> = zfull[..nv - 1].to_vec();
+            if kind == "open-short-point" {
+                let mut sp = fresh();
+                sp.absorb_seed(i as u64);
+                let out = guarded(|| PC::open(&env.ck, env.polys.iter(), env.comms.iter(), &short, &mut sp, env.states.iter(), None));
+                let mut xis = sp.challenges();
+                while xis.len() < npoly {
+                    xis.push(Fr::rand(&mut rng));
+                }
+                let req = t
+                    .key_args(Req::new("c15.open"), s)
+                    .arg("nvp", wire::nat(plain.iter().map(|p| p.num_vars()).max().unwrap_or(0)))
+                    .arg("nvr", wire::nat(blinds.iter().map(|p| p.num_vars()).max().unwrap_or(0)))
+                    .arg("ps", polys_val(&plain))
+                    .arg("z", wire::fes(&short))
+                    .arg("rs", polys_val(&blinds))
+                    .arg("xis", wire::fes(&xis));
+                // the last variable may not occur in any polynomial: then the short point is enough for a
+                // non-hiding opening and the answer must be the model's
+                let uses_last = plain.iter().any(|p| p.terms().iter().any(|(_, tm)| tm.iter().any(|(v, _)| *v == nv - 1)));
+                let txt = format!("{}# open at the short point {}\n", env.head, wire::fes(&short));
+                match out {
+                    Ok(Ok(pr)) => {
+                        if uses_last || any_hiding {
+                            refused(ctx, "open answered at a point with too few coordinates", true, txt);
+                        } else {
+                            ctx.ses.ask(&id, req, ImplOutcome::Ok(vec![("w".into(), Expect::G1s(pr.w.clone())), ("rv".into(), Expect::OptFe(pr.random_v))]));
+                            ctx.rep.count("pst13/c17-short-point-sufficient");
+                        }
+                    }
+                    Ok(Err(e)) => ctx.ses.ask(&id, req, ImplOutcome::Refuse(err_kind(&e))),
+                    Err(a) => ctx.ses.ask(&id, req, ImplOutcome::Refuse(a)),
+                }
+            } else {
+                let mut sp = fresh();
+                sp.absorb_seed(i as u64);
+                let vsp = sp.clone();
+                if let Ok(Ok(pr)) = guarded(|| PC::open(&env.ck, env.polys.iter(), env.comms.iter(), &zfull, &mut sp, env.states.iter(), None)) {
+                    let vals: Vec<Fr> = plain.iter().map(|p| p.evaluate(&zfull)).collect();
+                    let (o, vx) = check_impl(&env.vk, &env.comms, &short, &vals, &pr, &vsp);
+                    let txt = format!("{}# check at the short point {}\n", env.head, wire::fes(&short));
+                    refused(ctx, "check answered at a point with too few coordinates", matches!(o, ImplOutcome::Ok(_)), txt);
+                    // witness scalars are not needed: the model refuses on the shape alone
+                    ctx.ses.ask(
+                        &id,
+                        t.key_args(Req::new("c15.check"), s)
+                            .arg("cs", wire::fes(&env.c_scalars))
+                            .arg("z", wire::fes(&short))
+                            .arg("vs", wire::fes(&vals))
+                            .arg("w", wire::fes(&vec![Fr::one(); pr.w.len()]))
+                            .arg("rv", wire::opt_fe(&pr.random_v))
+                            .arg("xis", wire::fes(&vx)),
+                        o,
+                    );
+                }
+            }
+        }
+        _ => {
+            // label lookups of batch_open / batch_check
+            let z: Vec<Fr> = (0..nv).map(|_| Fr::rand(&mut rng)).collect();
+            let mut qs: QSet = QSet::new();
+            let mut evals: EvalMap = EvalMap::new();
+            for j in 0..npoly {
+                qs.insert((format!("p{}", j), ("z".to_string(), z.clone())));
+                evals.insert((format!("p{}", j), z.clone()), plain[j].evaluate(&z));
+            }
+            let mut sp = fresh();
+            sp.absorb_seed(i as u64);
+            let vsp = sp.clone();
+            let labels: Vec<String> = env.comms.iter().map(|c| c.label().clone()).collect();
+            if kind == "batch-open-unknown-label" {
+                qs.insert(("nosuch".to_string(), ("z".to_string(), z.clone())));
+                let out = guarded(|| PC::batch_open(&env.ck, env.polys.iter(), env.comms.iter(), &qs, &mut sp, env.states.iter(), Some(&mut rng)));
+                let req = queries_args(lcomms_args(rands_args(lpolys_args(t.key_args(Req::new("pst13.batch_open"), s), &env.polys), &env.states), &labels, &env.c_scalars), &qs)
+                    .arg("xis", wire::fes(&(0..npoly + 2).map(|_| Fr::rand(&mut rng)).collect::<Vec<_>>()));
+                let txt = format!("{}# batch_open with a query for the unknown label `nosuch`\n", env.head);
+                match out {
+                    Ok(Ok(_)) => refused(ctx, "batch_open answered a query for an unknown polynomial", true, txt),
+                    Ok(Err(e)) => {
+                        if err_kind(&e) != "missingPolynomial" {
+                            ctx.rep.expect_fail(&id, "pst13/wrong-error-kind", &format!("batch_open: {} instead of MissingPolynomial", err_kind(&e)), txt);
+                        }
+                        ctx.ses.ask(&id, req, ImplOutcome::Refuse(err_kind(&e)))
+                    }
+                    Err(a) => ctx.ses.ask(&id, req, ImplOutcome::Refuse(a)),
+                }
+            } else if let Ok(Ok(proofs)) = guarded(|| PC::batch_open(&env.ck, env.polys.iter(), env.comms.iter(), &qs, &mut sp, env.states.iter(), Some(&mut rng))) {
+                if kind == "batch-unknown-label" {
+                    qs.insert(("nosuch".to_string(), ("z".to_string(), z.clone())));
+                    evals.insert(("nosuch".to_string(), z.clone()), Fr::rand(&mut rng));
+                } else {
+                    evals.remove(&(format!("p{}", range(&mut rng, 0, npoly - 1)), z.clone()));
+                }
+                let mut vs = vsp.clone();
+                let out = guarded(|| PC::batch_check(&env.vk, env.comms.iter(), &qs, &evals, &proofs, &mut vs, &mut rng));
+                let req = evals_args(queries_args(lcomms_args(t.key_args(Req::new("pst13.batch_check"), s), &labels, &env.c_scalars), &qs), &evals)
+                    .arg("ws", wire::fess(&proofs.iter().map(|p| vec![Fr::one(); p.w.len()]).collect::<Vec<_>>()))
+                    .arg("rvs", Val::L(proofs.iter().map(|p| wire::opt_fe(&p.random_v)).collect()))
+                    .arg("xis", wire::fes(&(0..npoly + 2).map(|_| Fr::rand(&mut rng)).collect::<Vec<_>>()))
+                    .arg("rs", wire::fes(&[Fr::one()]));
+                let txt = format!("{}# batch_check, {}\n", env.head, kind);
+                let want = if kind == "batch-unknown-label" { "missingPolynomial" } else { "missingEvaluation" };
+                match out {
+                    Ok(Ok(_)) => refused(ctx, "batch_check answered a query it cannot resolve", true, txt),
+                    Ok(Err(e)) => {
+                        if err_kind(&e) != want {
+                            ctx.rep.expect_fail(&id, "pst13/wrong-error-kind", &format!("batch_check: {} instead of {}", err_kind(&e), want), txt);
+                        }
+                        ctx.ses.ask(&id, req, ImplOutcome::Refuse(err_kind(&e)))
+                    }
+                    Err(a) => ctx.ses.ask(&id, req, ImplOutcome::Refuse(a)),
+                }
+            }
+        }
+    }
+    ctx.rep.count(&format!("pst13/c17-{}", kind));
+    ctx.rep.case(&format!("pst13 out-of-domain {} nv={} D={} s={}", kind, nv, d, s), Some(format!("pst13-c17/{}/{}", kind, nv)));
+}
+
+fn domain_setup_cases(ctx: &mut Ctx) {
+    // zero variables / zero degree / no variable count at setup; trim above the maximum
+    for (k, (nv, d)) in [(Some(0usize), 2usize), (Some(2), 0), (None, 2), (Some(0), 0)].into_iter().enumerate() {
+        let id = format!("C17/pst13-setup/{}", k);
+        if !ctx.selected(&id) {
+            continue;
+        }
+        let mut rng = rng_for(ctx.seed, "C17/pst13-setup", k as u64);
+        let out = guarded(|| PC::setup(d, nv, &mut rng));
+        match out {
+            Ok(Ok(_)) => ctx.rep.expect_fail(&id, "pst13/out-of-domain-answered/setup", &format!("setup({}, {:?}) returned parameters", d, nv), format!("# MarlinPST13::setup({}, {:?})\n", d, nv)),
+            Ok(Err(e)) => {
+                if let Some(n) = nv {
+                    ctx.ses.ask(&id, Req::new("c15.setup_terms").arg("nv", wire::nat(n)).arg("d", wire::nat(d)).arg("betas", wire::fes::<Fr>(&[])), ImplOutcome::Refuse(err_kind(&e)));
+                }
+            }
+            Err(a) => {
+                if let Some(n) = nv {
+                    ctx.ses.ask(&id, Req::new("c15.setup_terms").arg("nv", wire::nat(n)).arg("d", wire::nat(d)).arg("betas", wire::fes::<Fr>(&[])), ImplOutcome::Refuse(a));
+                }
+            }
+        }
+        ctx.rep.count("pst13/c17-setup");
+        ctx.rep.case(&format!("pst13 setup refused nv={:?} D={}", nv, d), Some(format!("pst13-c17-setup/{}", k)));
+    }
+    for k in 0..3usize {
+        let id = format!("C17/pst13-trim/{}", k);
+        if !ctx.selected(&id) {
+            continue;
+        }
+        let mut rng = rng_for(ctx.seed, "C17/pst13-trim", k as u64);
+        let nv = range(&mut rng, 1, 3);
+        let d = range(&mut rng, 1, 3);
+        let trap = Trap::random(&mut rng, nv, d);
+        let pp = trap.params();
+        let s = d + 1 + k;
+        let out = guarded(|| PC::trim(&pp, s, 0, None));
+        let req = trap.key_args(Req::new("c15.trim"), s);
+        match out {
+            Ok(Ok(_)) => ctx.rep.expect_fail(&id, "pst13/out-of-domain-answered/trim", &format!("trim to {} > max_degree {} returned keys", s, d), trap.desc()),
+            Ok(Err(e)) => ctx.ses.ask(&id, req, ImplOutcome::Refuse(err_kind(&e))),
+            Err(a) => ctx.ses.ask(&id, req, ImplOutcome::Refuse(a)),
+        }
+        ctx.rep.count("pst13/c17-trim");
+        ctx.rep.case(&format!("pst13 trim refused nv={} D={} s={}", nv, d, s), Some(format!("pst13-c17-trim/{}", k)));
+    }
+}
+
+// ------------------------------------------------------------------------------------------------
+// C19: one group element per commitment, num_vars witness elements per proof, one proof per point label
+// ------------------------------------------------------------------------------------------------
+
+fn size_case(ctx: &mut Ctx, i: usize) {
+    use ark_serialize::CanonicalSerialize;
+    let id = format!("C19/pst13-model/{}", i);
+    if !ctx.selected(&id) {
+        return;
+    }
+    const G1B: usize = 48;
+    const FRB: usize = 32;
+    let mut rng = rng_for(ctx.seed, "C19/pst13-model", i as u64);
+    let nv = range(&mut rng, 1, if ctx.thorough { 6 } else { 4 });
+    let d = range(&mut rng, 1, 3);
+    let s = d;
+    let npoly = range(&mut rng, 1, 4);
+    let env = match make_env(ctx, &id, &mut rng, nv, d, s, npoly, true) {
+        Some(e) => e,
+        None => return,
+    };
+    let plain = env.plain();
+    let npoints = range(&mut rng, 1, 4);
+    let mut qs: QSet = QSet::new();
+    let mut labels_of: BTreeMap<String, BTreeSet<usize>> = BTreeMap::new();
+    for k in 0..npoints {
+        let z: Vec<Fr> = (0..nv).map(|_| Fr::rand(&mut rng)).collect();
+        let mut any = false;
+        for j in 0..npoly {
+            if coin(&mut rng) {
+                qs.insert((format!("p{}", j), (format!("z{}", k), z.clone())));
+                labels_of.entry(format!("z{}", k)).or_default().insert(j);
+                any = true;
+            }
+        }
+        if !any {
+            let j = range(&mut rng, 0, npoly - 1);
+            qs.insert((format!("p{}", j), (format!("z{}", k), z.clone())));
+            labels_of.entry(format!("z{}", k)).or_default().insert(j);
+        }
+    }
+    let mut sp = fresh();
+    sp.absorb_seed(0xC19 + i as u64);
+    let proofs: Vec<Proof<Bls12_381>> = match guarded(|| PC::batch_open(&env.ck, env.polys.iter(), env.comms.iter(), &qs, &mut sp, env.states.iter(), Some(&mut rng))) {
+        Ok(Ok(p)) => p,
+        _ => {
+            ctx.rep.expect_fail(&id, "pst13/open-refused", "batch_open refused committed polynomials", env.head.clone());
+            return;
+        }
+    };
+    let xis = sp.challenges();
+    let mut bad: Vec<String> = vec![];
+    for c in env.comms.iter() {
+        let n = c.commitment().compressed_size();
+        if n != G1B + 1 {
+            bad.push(format!("a commitment serializes to {} bytes, one group element + flag is {}", n, G1B + 1));
+        }
+    }
+    if proofs.len() != npoints {
+        bad.push(format!("{} proofs for {} point labels", proofs.len(), npoints));
+    }
+    for (k, (pl, js)) in labels_of.iter().enumerate() {
+        if k >= proofs.len() {
+            break;
+        }
+        let hiding = js.iter().any(|j| !env.states[*j].blinding_polynomial.is_zero());
+        let want = 8 + nv * G1B + 1 + if hiding { FRB } else { 0 };
+        let got = proofs[k].compressed_size();
+        if proofs[k].w.len() != nv || got != want || proofs[k].random_v.is_some() != hiding {
+            bad.push(format!("proof of point label {} ({} polynomials, max degree {}): {} witness elements, {} bytes; law: {} elements, {} bytes", pl, js.len(), js.iter().map(|j| plain[*j].degree()).max().unwrap_or(0), proofs[k].w.len(), got, nv, want));
+        }
+    }
+    if !bad.is_empty() {
+        ctx.rep.expect_fail(&id, "pst13/size-law", &bad.join("; "), format!("{}# queries: {}\n# {}\n", env.head, qs.iter().map(|q| format!("({}, {})", q.0, (q.1).0)).collect::<Vec<_>>().join(" "), bad.join("\n# ")));
+    }
+    let labels: Vec<String> = env.comms.iter().map(|c| c.label().clone()).collect();
+    ctx.ses.ask(
+        &id,
+        queries_args(lcomms_args(rands_args(lpolys_args(env.trap.key_args(Req::new("pst13.batch_open"), s), &env.polys), &env.states), &labels, &env.c_scalars), &qs)
+            .arg("xis", wire::fes(&xis)),
+        ImplOutcome::Ok(vec![
+            ("ws".into(), Expect::G1s(proofs.iter().flat_map(|p| p.w.clone()).collect())),
+            ("wlens".into(), Expect::Nats(proofs.iter().map(|p| p.w.len()).collect())),
+            ("rvs".into(), Expect::Raw(Val::L(proofs.iter().map(|p| wire::opt_fe(&p.random_v)).collect()))),
+            ("used".into(), Expect::Nat(xis.len())),
+        ]),
+    );
+    ctx.rep.case(&format!("pst13 sizes nv={} D={} polys={} point-labels={} proofs={}", nv, d, npoly, npoints, proofs.len()), Some(format!("pst13-c19/{}/{}/{}", nv, npoly, npoints)));
 }
 
 pub fn run(ctx: &mut Ctx) {
